@@ -58,6 +58,7 @@ def required(tier):
     b = {f'kind:{k}': 100 for k in KINDS}
     b.update({'dfdt:integer': 40, 'dfdt:rounds-down': 150, 'dfdt:tie': 100, 'dfdt:rounds-up': 150})
     b.update({f'prior:{k}': 100 for k in set(PRIOR)})
+    b['frame:more-than-2^20-pixels'] = 4
     b['scale:below-1e-8'] = 40
     b.update({'first-noise-on-empty': 400, 'reestimate': 500, 'signal-before-first-noise': 100, 'zero-data': 150,
               'signal-between-noise': 300, 'no-noise-raises': 500, 'share:on': 60, 'share:off': 60, 'tables:list': 200,
@@ -148,6 +149,11 @@ def _frame_case(rng, i, tier):
     tch, fch = shapes[int(rng.integers(len(shapes)))]
     if tier == 'quick' and tch * fch > 70000 and i % 8:
         tch, fch = SHAPES_Q[int(rng.integers(12))]
+    if common.stratum(i, 121, 90 if tier == 'quick' else 300) == 0:
+        # a frame of more than 2^20 pixels whose row count is not a power of two (a library that draws large frames in pieces must
+        # still fill every row)
+        tch, fch = common.pick(rng, [(40, 65536), (21, 100000), (33, 40000), (3, 600000)])
+        kind, hist = 'chi2', 'N'
     if tch * fch > 300000:
         hist = hist[:3]
     base = float(10 ** rng.uniform(-3, 9))
@@ -574,6 +580,8 @@ def run_frame(c, R):
     kc, cls = k_candidates(c['df'], c['dt'])
     R.bucket('dfdt:' + ('rounds-down' if cls == 'rounds-down' else cls))
     R.bucket('prior:' + c['prior'])
+    if c['fchans'] * c['tchans'] > 2 ** 20:
+        R.bucket('frame:more-than-2^20-pixels')
     R.bucket('orient:asc' if c['asc'] else 'orient:desc')
     fr, model = make_frame(stg, c, rn)
     N = c['fchans'] * c['tchans']
